@@ -6,6 +6,9 @@ import Slock.Model.Aof
 * `aofappend <cfgBuf> <rechex>:<dathex|x> <hex64>/<blobhex|n>,…` → `<rechex>:<dathex>` (reopen in append mode, write, close)
 * `aofwrites <cfgBuf> <hex64>/<blobhex|n>,…` → `rec:dat,…` sizes after each writer call
 * `aofdl <eflag> <E> <grant> <journal> <reload>` → `commandTime age stored skipped restoredExpried`
+* `aofreload <nowRel> <journal>` → `reload` of the journal at second nowRel (what a restart does): `<holds>|<values>#<db>.<key>:<class>,…`
+  (`~` = value not predicted: a millisecond hold of the key ended during the reload); the classes name the first record per key
+  that the restart treats differently from what the journal means
 * `aofjournal <L|U>.<db>.<key>.<id>.<flag>.<aofFlag>.<eflag>.<stored>.<ctRel>.<count>.<rcount>.<valuehex|n>,…` → `recover` of the
   journal: `<db>.<key>.<id>.<depth>.<count>.<rcount>.<eflag>.<deadline|inf>;…|<db>.<key>=<valuehex>;…`
 * `aofkeep <now> <view> <hex64>/<blob|n>` → 1|0: the compaction keeps the record (`keepRule`, after the expired-record filter)
@@ -147,6 +150,21 @@ def handleAof : List String → Option String
     let n ← n.toInt?
     let (ct, age, rem, sk, re) := journalReload ef e s c n
     pure (s!"{ct} {age} {rem} {if sk then 1 else 0} {re}")
+  | ["aofreload", now, j] => do
+    let now ← now.toInt?
+    let rs ← parseJournal j
+    let st := reload now rs
+    let holds := st.flatMap (fun k => k.holds.map (fun h => (k.db, k.key, h)))
+    let hs := (holds.toArray.qsort (fun a b => a.1 < b.1 || (a.1 == b.1 && (a.2.1 < b.2.1 || (a.2.1 == b.2.1 && a.2.2.id < b.2.2.id))))).toList
+    let ks := ((st.filter (fun k => !k.holds.isEmpty || k.value.isSome || k.unsure)).toArray.qsort (fun a b => a.db < b.db || (a.db == b.db && a.key < b.key))).toList
+    let h := if hs.isEmpty then "-" else ";".intercalate (hs.map (fun x =>
+      s!"{x.1}.{x.2.1}.{x.2.2.id}.{x.2.2.depth}.{x.2.2.count}.{x.2.2.rcount}.{showHexNat (x.2.2.eflag &&& 0x4440)}." ++
+        (match x.2.2.deadline with | none => "inf" | some d => toString d)))
+    let v := if ks.isEmpty then "-" else ";".intercalate (ks.map (fun k => s!"{k.db}.{k.key}=" ++
+      (if k.unsure then "~" else match k.value with | none => "n" | some b => showHex b)))
+    let cls := classifyReplay now rs
+    let c := if cls.isEmpty then "-" else ",".intercalate (cls.map (fun p => s!"{p.1.1}.{p.1.2}:{p.2.name}"))
+    pure (h ++ "|" ++ v ++ "#" ++ c)
   | ["aofjournal", j] => do
     let rs ← parseJournal j
     pure (showJState (recover rs))
